@@ -284,7 +284,7 @@ impl Probe {
         k.dedup();
         // a route that expires while a socket waits for a neighbor changes the next hop (and with it
         // the answer of has_neighbor) without any event: its own signature
-        let sig = format!("S:{}:{}{}", kind_d, k.join("+"), if self.route_expired_in_between { ":route-expired-in-between" } else { "" });
+        let sig = if self.route_expired_in_between { format!("S:{}:route-expired-in-between", kind_d) } else { format!("S:{}:{}", kind_d, k.join("+")) };
         let desc = format!(
             "driver {}: Interface::poll_at answered {:?} at t={}us; with no frame received and no socket or interface call in between, the {} poll at t={}us transmitted {} frame(s) [{}]: {} ; sockets: {}",
             self.driver,
